@@ -59,7 +59,9 @@ Definition eval_binop (o : binop) (x y : val) : option val :=
   | B_RegexSearch => None
   end.
 
-Definition is_null_lit (e : pexpr) : bool := match e with PLit LNull => true | _ => false end.
+(* the literal null; a unary plus in front of it changes nothing (`+x` is x) *)
+Fixpoint is_null_lit (e : pexpr) : bool :=
+  match e with PLit LNull => true | PUnE U_Add x => is_null_lit x | _ => false end.
 Definition is_eq_op (o : binop) : option bool :=   (* Some negated *)
   match o with B_Eq => Some false | B_Ne => Some true | _ => None end.
 
@@ -88,18 +90,21 @@ Fixpoint eval_doc (env : list val) (e : pexpr) : option val :=
       | None => None
       end
   | PCase cs =>
-      (* first branch whose condition is true; every branch must be inside the value model *)
+      (* the value of the first branch whose condition is true (branches after it are not looked at) *)
       (fix go (cs : list (pexpr * pexpr)) : option val :=
          match cs with
          | [] => Some VNull
          | (c, v) :: t =>
-             match eval_doc env c, eval_doc env v, go t with
-             | Some cv, Some vv, Some rest => Some (if is_true cv then vv else rest)
-             | _, _, _ => None
+             match eval_doc env c with
+             | Some cv => if is_true cv then eval_doc env v else go t
+             | None => None
              end
          end) cs
   | PIn x lo hi =>
-      (* lo <= x <= hi; an absent bound, or the literal null, is an open bound *)
+      (* lo <= x <= hi; an absent bound, or the literal null, is an open bound; with both bounds open the
+         test is true whatever x is *)
+      let is_open (b : option pexpr) := match b with None => true | Some be => is_null_lit be end in
+      if is_open lo && is_open hi then Some (b2v true) else
       match eval_doc env x with
       | None => None
       | Some v =>
